@@ -70,4 +70,559 @@ theorem replayFile_frame {dec : Dec} {r : Rec} (h : WFRec dec r) (m : Mode) (fue
   rw [List.take_left' (body_length r), List.drop_left' (body_length r), parseBody_body h]
   simp
 
+/-- a torn tail: nothing, or a proper byte prefix of one frame -/
+def Torn (t : Bytes) : Prop :=
+  t = [] ∨ ∃ r k, r.entry.length + 12 < 256 ^ 4 ∧ k < (frame r).length ∧ t = (frame r).take k
+
+theorem replayFile_torn {m : Mode} (hm : m.tornIsEnd = true) (dec : Dec) (fuel : Nat) {t : Bytes}
+    (h : Torn t) : replayFile m dec fuel t = ([], .ok) := by
+  cases fuel with
+  | zero => rfl
+  | succ fuel =>
+    rcases h with rfl | ⟨r, k, hb, hk, rfl⟩
+    · rw [replayFile]; simp
+    · rw [replayFile]
+      rw [frame_length] at hk
+      by_cases h4 : k < 4
+      · rw [if_pos (by simp [List.length_take]; omega)]
+      · have hlen : ((frame r).take k).length = k := by simp [List.length_take, frame_length]; omega
+        rw [if_neg (by omega)]
+        have ht : ((frame r).take k).take 4 = le 4 (r.entry.length + 12) := by
+          rw [List.take_take, Nat.min_eq_left (by omega)]
+          simp only [frame]; exact List.take_left' (le_length 4 _)
+        simp only [ht, fromLE_le 4 _ hb]
+        rw [if_pos (by simp [List.length_drop, hlen]; omega)]
+        simp [hm]
+
+theorem replayFile_frames {m : Mode} (hm : m.tornIsEnd = true) {dec : Dec} :
+    ∀ (rs : List Rec) (fuel : Nat) (t : Bytes),
+    (∀ r ∈ rs, WFRec dec r) → Torn t → rs.length < fuel →
+    replayFile m dec fuel (frames rs ++ t) = (rs, .ok)
+  | [], fuel, t, _, ht, _ => by simpa [frames] using replayFile_torn hm dec fuel ht
+  | _ :: _, 0, _, _, _, hf => by simp at hf
+  | r :: rs, fuel + 1, t, hw, ht, hf => by
+    simp only [frames, List.append_assoc]
+    rw [replayFile_frame (hw r (by simp)),
+      replayFile_frames hm rs fuel t (fun x hx => hw x (by simp [hx])) ht (by simpa using hf)]
+
+theorem frames_length_cons (r : Rec) (rs : List Rec) :
+    (frames (r :: rs)).length = r.entry.length + 16 + (frames rs).length := by
+  simp [frames, frame_length]
+
+theorem frames_length_ge : ∀ rs : List Rec, rs.length ≤ (frames rs).length
+  | [] => by simp [frames]
+  | r :: rs => by have := frames_length_ge rs; rw [frames_length_cons]; simp; omega
+
+theorem frames_append : ∀ (a b : List Rec), frames (a ++ b) = frames a ++ frames b
+  | [], b => by simp [frames]
+  | r :: a, b => by simp [frames, frames_append a b]
+
+/-- **replay of whole records followed by a torn tail returns exactly the records** -/
+theorem replay_frames {m : Mode} (hm : m.tornIsEnd = true) {dec : Dec} (rs : List Rec) (t : Bytes)
+    (hw : ∀ r ∈ rs, WFRec dec r) (ht : Torn t) : replay m dec (frames rs ++ t) = (rs, .ok) :=
+  replayFile_frames hm rs _ t hw ht (by
+    have := frames_length_ge rs; simp only [List.length_append]; omega)
+
+/-- split a byte offset into whole frames and the remainder -/
+def cutRecs : List Rec → Nat → List Rec × Bytes
+  | [], _ => ([], [])
+  | r :: rs, k =>
+    if r.entry.length + 16 ≤ k then
+      (r :: (cutRecs rs (k - (r.entry.length + 16))).1, (cutRecs rs (k - (r.entry.length + 16))).2)
+    else ([], (frame r).take k)
+
+theorem take_frames : ∀ (rs : List Rec) (k : Nat),
+    (frames rs).take k = frames (cutRecs rs k).1 ++ (cutRecs rs k).2
+  | [], k => by simp [frames, cutRecs]
+  | r :: rs, k => by
+    simp only [frames, cutRecs]
+    split
+    · rename_i h
+      rw [List.take_append, frame_length,
+        List.take_of_length_le (by rw [frame_length]; exact h), take_frames rs _]
+      simp [frames]
+    · rename_i h
+      rw [List.take_append_of_le_length (by rw [frame_length]; omega)]
+      simp [frames]
+
+theorem cutRecs_fst : ∀ (rs : List Rec) (k : Nat), (cutRecs rs k).1 = rs.take (fitCount rs k)
+  | [], k => by simp [cutRecs, fitCount]
+  | r :: rs, k => by
+    simp only [cutRecs, fitCount]
+    split <;> simp [cutRecs_fst rs]
+
+theorem cutRecs_torn : ∀ (rs : List Rec) (k : Nat), (∀ r ∈ rs, r.entry.length + 12 < 256 ^ 4) →
+    Torn (cutRecs rs k).2
+  | [], k, _ => by simp [cutRecs, Torn]
+  | r :: rs, k, h => by
+    simp only [cutRecs]
+    split
+    · exact cutRecs_torn rs _ (fun x hx => h x (by simp [hx]))
+    · rename_i hk
+      exact Or.inr ⟨r, k, h r (by simp), by rw [frame_length]; omega, rfl⟩
+
+theorem fitCount_le : ∀ (rs : List Rec) (k : Nat), fitCount rs k ≤ rs.length
+  | [], k => by simp [fitCount]
+  | r :: rs, k => by
+    simp only [fitCount]; split
+    · have := fitCount_le rs (k - (r.entry.length + 16)); simp; omega
+    · simp
+
+theorem fit_le : ∀ (rs : List Rec) (k : Nat), (frames (rs.take (fitCount rs k))).length ≤ k
+  | [], k => by simp [fitCount, frames]
+  | r :: rs, k => by
+    simp only [fitCount]; split
+    · have := fit_le rs (k - (r.entry.length + 16))
+      rw [List.take_succ_cons, frames_length_cons]; omega
+    · simp [frames]
+
+theorem fit_max : ∀ (rs : List Rec) (k : Nat), fitCount rs k < rs.length →
+    k < (frames (rs.take (fitCount rs k + 1))).length
+  | [], k, h => by simp at h
+  | r :: rs, k, h => by
+    simp only [fitCount] at h ⊢; split
+    · rename_i hk
+      rw [if_pos hk] at h
+      have := fit_max rs (k - (r.entry.length + 16)) (by simpa using h)
+      rw [List.take_succ_cons, frames_length_cons]; omega
+    · rename_i hk
+      rw [List.take_succ_cons, frames_length_cons]; omega
+
+/-- **truncation at any byte offset**: exactly the whole records before the cut -/
+theorem replay_take {m : Mode} (hm : m.tornIsEnd = true) {dec : Dec} (rs : List Rec)
+    (hw : ∀ r ∈ rs, WFRec dec r) (k : Nat) :
+    replay m dec ((frames rs).take k) = (rs.take (fitCount rs k), .ok) := by
+  rw [take_frames]
+  have h1 := cutRecs_fst rs k
+  have h2 := cutRecs_torn rs k (fun r hr => (hw r hr).2.1)
+  rw [replay_frames hm _ _ (by rw [h1]; exact fun r hr => hw r (List.mem_of_mem_take hr)) h2, h1]
+
+/-! ### the directory invariant -/
+
+/-- the records `Wal::new`'s scan (and `replay`) finds in a file -/
+def recsOf (dec : Dec) (f : File) : List Rec := (replay scanMode dec f.data).1
+def seqsOf (dec : Dec) (f : File) : List Nat := (recsOf dec f).map (·.seq)
+
+/-- a file is whole well-formed records followed by a torn tail -/
+def Good (dec : Dec) (f : File) : Prop :=
+  ∃ rs t, (∀ r ∈ rs, WFRec dec r) ∧ Torn t ∧ f.data = frames rs ++ t
+
+theorem recsOf_eq {dec : Dec} {f : File} {rs : List Rec} {t : Bytes}
+    (hw : ∀ r ∈ rs, WFRec dec r) (ht : Torn t) (hd : f.data = frames rs ++ t) :
+    recsOf dec f = rs := by
+  simp only [recsOf, hd, replay_frames (m := scanMode) rfl rs t hw ht]
+
+theorem replay_good {m : Mode} (hm : m.tornIsEnd = true) {dec : Dec} {f : File} (h : Good dec f) :
+    replay m dec f.data = (recsOf dec f, .ok) := by
+  obtain ⟨rs, t, hw, ht, hd⟩ := h
+  rw [recsOf_eq hw ht hd, hd, replay_frames hm rs t hw ht]
+
+def FileOK (dec : Dec) (f : File) (B : Nat) : Prop :=
+  Good dec f ∧ f.name ≤ B ∧ (seqsOf dec f).Pairwise (· < ·) ∧
+    ∀ q ∈ seqsOf dec f, f.name ≤ q ∧ q ≤ B
+
+def Before (dec : Dec) (f g : File) : Prop := f.name < g.name ∧ ∀ q ∈ seqsOf dec f, q < g.name
+
+def DirOK (dec : Dec) (fs : List File) (B : Nat) : Prop :=
+  (∀ f ∈ fs, FileOK dec f B) ∧ fs.Pairwise (Before dec)
+
+theorem fileOK_mono {dec : Dec} {f : File} {B B' : Nat} (h : FileOK dec f B) (hB : B ≤ B') :
+    FileOK dec f B' :=
+  ⟨h.1, Nat.le_trans h.2.1 hB, h.2.2.1, fun q hq => ⟨(h.2.2.2 q hq).1, Nat.le_trans (h.2.2.2 q hq).2 hB⟩⟩
+
+theorem dirOK_nil (dec : Dec) (B : Nat) : DirOK dec [] B := ⟨by simp, List.Pairwise.nil⟩
+
+theorem dirOK_snoc {dec : Dec} {fs : List File} {f : File} {B B' : Nat} (h : DirOK dec fs B)
+    (hB : B ≤ B') (hf : FileOK dec f B') (hb : ∀ g ∈ fs, Before dec g f) :
+    DirOK dec (fs ++ [f]) B' := by
+  refine ⟨?_, ?_⟩
+  · intro x hx
+    rcases List.mem_append.mp hx with hx | hx
+    · exact fileOK_mono (h.1 x hx) hB
+    · simp at hx; subst hx; exact hf
+  · rw [List.pairwise_append]
+    exact ⟨h.2, List.pairwise_singleton _ _, fun a ha b hb' => by
+      simp at hb'; subst hb'; exact hb a ha⟩
+
+theorem dirOK_init {dec : Dec} {fs : List File} {f : File} {B : Nat} (h : DirOK dec (fs ++ [f]) B) :
+    DirOK dec fs B ∧ (∀ g ∈ fs, Before dec g f) ∧ FileOK dec f B := by
+  have hp := h.2
+  rw [List.pairwise_append] at hp
+  exact ⟨⟨fun x hx => h.1 x (List.mem_append_left _ hx), hp.1⟩,
+    fun g hg => hp.2.2 g hg f (by simp), h.1 f (by simp)⟩
+
+theorem pairwise_mem {α : Type} {R : α → α → Prop} : ∀ {l : List α}, l.Pairwise R →
+    ∀ {a b : α}, a ∈ l → b ∈ l → a = b ∨ R a b ∨ R b a
+  | [], _, _, _, ha, _ => by simp at ha
+  | x :: l, h, a, b, ha, hb => by
+    rw [List.pairwise_cons] at h
+    rcases List.mem_cons.mp ha with rfl | ha' <;> rcases List.mem_cons.mp hb with rfl | hb'
+    · exact Or.inl rfl
+    · exact Or.inr (Or.inl (h.1 b hb'))
+    · exact Or.inr (Or.inr (h.1 a ha'))
+    · exact pairwise_mem h.2 ha' hb'
+
+theorem foldl_max_ge : ∀ (l : List Rec) (a : Nat),
+    a ≤ l.foldl (fun a r => max a r.seq) a ∧ ∀ r ∈ l, r.seq ≤ l.foldl (fun a r => max a r.seq) a
+  | [], a => by simp
+  | x :: l, a => by
+    have ih := foldl_max_ge l (max a x.seq)
+    simp only [List.foldl_cons]
+    refine ⟨by omega, fun r hr => ?_⟩
+    rcases List.mem_cons.mp hr with rfl | hr
+    · omega
+    · exact ih.2 r hr
+
+theorem foldl_max_le : ∀ (l : List Rec) (a B : Nat), a ≤ B → (∀ r ∈ l, r.seq ≤ B) →
+    l.foldl (fun a r => max a r.seq) a ≤ B
+  | [], a, B, ha, _ => by simpa
+  | x :: l, a, B, ha, hl => by
+    simp only [List.foldl_cons]
+    exact foldl_max_le l _ B (by have := hl x (by simp); omega) (fun r hr => hl r (by simp [hr]))
+
+theorem newest_spec : ∀ (fs : List File) (g : File), newest fs = some g →
+    g ∈ fs ∧ ∀ f ∈ fs, f.name ≤ g.name
+  | [], g, h => by simp [newest] at h
+  | f :: fs, g, h => by
+    simp only [newest] at h
+    cases hn : newest fs with
+    | none =>
+      rw [hn] at h; simp at h; subst h
+      have : fs = [] := by
+        cases fs with
+        | nil => rfl
+        | cons y ys =>
+          simp only [newest] at hn
+          cases h2 : newest ys <;> rw [h2] at hn <;> simp at hn
+          split at hn <;> simp at hn
+      subst this; simp
+    | some g' =>
+      rw [hn] at h; dsimp only at h
+      have ih := newest_spec fs g' hn
+      by_cases hlt : f.name < g'.name
+      · rw [if_pos hlt] at h; simp at h; subst h
+        exact ⟨List.mem_cons_of_mem _ ih.1, fun x hx => by
+          rcases List.mem_cons.mp hx with rfl | hx
+          · omega
+          · exact ih.2 x hx⟩
+      · rw [if_neg hlt] at h; simp at h; subst h
+        exact ⟨by simp, fun x hx => by
+          rcases List.mem_cons.mp hx with rfl | hx
+          · omega
+          · have := ih.2 x hx; omega⟩
+
+theorem newest_none : ∀ (fs : List File), newest fs = none → fs = []
+  | [], _ => rfl
+  | f :: fs, h => by
+    simp only [newest] at h
+    cases h2 : newest fs <;> rw [h2] at h <;> simp at h
+    split at h <;> simp at h
+
+theorem dirOK_findLatest {dec : Dec} {fs : List File} {B : Nat} (h : DirOK dec fs B) :
+    DirOK dec fs (findLatest Mode.fixed dec fs) ∧ findLatest Mode.fixed dec fs ≤ B := by
+  unfold findLatest
+  cases hn : newest fs with
+  | none =>
+    have := newest_none fs hn; subst this
+    exact ⟨dirOK_nil _ _, by simp⟩
+  | some g =>
+    simp only [Mode.fixed, if_true]
+    obtain ⟨hg, hmax⟩ := newest_spec fs g hn
+    have hge := foldl_max_ge (replay scanMode dec g.data).1 g.name
+    have hgok := h.1 g hg
+    refine ⟨⟨fun f hf => ?_, h.2⟩, ?_⟩
+    · have hfok := h.1 f hf
+      refine ⟨hfok.1, Nat.le_trans (hmax f hf) hge.1, hfok.2.2.1, fun q hq => ⟨(hfok.2.2.2 q hq).1, ?_⟩⟩
+      rcases pairwise_mem h.2 hf hg with rfl | hb | hb
+      · simp only [seqsOf, recsOf, List.mem_map] at hq
+        obtain ⟨r, hr, rfl⟩ := hq
+        exact hge.2 r hr
+      · have := hb.2 q hq; omega
+      · have := hb.1; have := hmax f hf; omega
+    · apply foldl_max_le _ _ _ hgok.2.1
+      intro r hr
+      exact (hgok.2.2.2 r.seq (by simp only [seqsOf, recsOf, List.mem_map]; exact ⟨r, hr, rfl⟩)).2
+
+/-! ### the writer preserves the invariant -/
+
+structure Inv (dec : Dec) (s : State) : Prop where
+  ok : DirOK dec (dir s) s.seq
+  whole : ∀ f, s.cur = some f → ∃ rs, (∀ r ∈ rs, WFRec dec r) ∧ f.data = frames rs
+
+theorem torn_nil : Torn [] := Or.inl rfl
+
+theorem inv_init (dec : Dec) : Inv dec {} := ⟨dirOK_nil _ _, by simp⟩
+
+theorem inv_append {dec : Dec} {s : State} {e : Bytes} (h : Inv dec s)
+    (he : WFRec dec ⟨s.seq + 1, e⟩) : Inv dec (append s e) := by
+  cases hc : s.cur with
+  | none =>
+    have hdir : dir s = s.closed := by simp [dir, hc]
+    have hd : (⟨s.seq + 1, frame ⟨s.seq + 1, e⟩⟩ : File).data = frames [⟨s.seq + 1, e⟩] ++ [] := by
+      simp [frames]
+    have hw : ∀ r ∈ [(⟨s.seq + 1, e⟩ : Rec)], WFRec dec r := by simp [he]
+    have hr := recsOf_eq hw torn_nil hd
+    refine ⟨?_, ?_⟩
+    · simp only [append, hc, dir, Option.toList, List.nil_append]
+      have hok := h.ok; rw [hdir] at hok
+      refine dirOK_snoc hok (Nat.le_succ _) ⟨⟨_, _, hw, torn_nil, hd⟩, Nat.le_refl _, ?_, ?_⟩ ?_
+      · simp [seqsOf, hr]
+      · simp [seqsOf, hr]
+      · intro g hg
+        have := hok.1 g hg
+        exact ⟨by have := this.2.1; simp; omega, fun q hq => by have := (this.2.2.2 q hq).2; simp; omega⟩
+    · intro f hf
+      simp only [append, hc] at hf
+      simp at hf; subst hf
+      exact ⟨[⟨s.seq + 1, e⟩], hw, by simp [frames]⟩
+  | some f =>
+    have hdir : dir s = s.closed ++ [f] := by simp [dir, hc]
+    obtain ⟨rs, hw, hd⟩ := h.whole f hc
+    have hok := h.ok; rw [hdir] at hok
+    obtain ⟨hpre, hbef, hfok⟩ := dirOK_init hok
+    have hrf : recsOf dec f = rs := recsOf_eq hw torn_nil (by simpa using hd)
+    have hw' : ∀ r ∈ rs ++ [(⟨s.seq + 1, e⟩ : Rec)], WFRec dec r := by
+      intro r hr; rcases List.mem_append.mp hr with hr | hr
+      · exact hw r hr
+      · simp at hr; subst hr; exact he
+    have hd' : ({ f with data := f.data ++ frame ⟨s.seq + 1, e⟩ } : File).data
+        = frames (rs ++ [⟨s.seq + 1, e⟩]) ++ [] := by
+      simp [frames_append, frames, hd]
+    have hr' := recsOf_eq hw' torn_nil hd'
+    refine ⟨?_, ?_⟩
+    · simp only [append, hc, dir, Option.toList]
+      refine dirOK_snoc hpre (Nat.le_succ _) ⟨⟨_, _, hw', torn_nil, hd'⟩, ?_, ?_, ?_⟩ ?_
+      · have := hfok.2.1; simp; omega
+      · simp only [seqsOf, hr', List.map_append, List.map_cons, List.map_nil]
+        rw [List.pairwise_append]
+        refine ⟨by have := hfok.2.2.1; simpa [seqsOf, hrf] using this, List.pairwise_singleton _ _, ?_⟩
+        intro a ha b hb
+        simp at hb; subst hb
+        have := (hfok.2.2.2 a (by simpa [seqsOf, hrf] using ha)).2; omega
+      · intro q hq
+        simp only [seqsOf, hr', List.map_append, List.map_cons, List.map_nil, List.mem_append,
+          List.mem_singleton] at hq
+        rcases hq with hq | hq
+        · have := hfok.2.2.2 q (by simpa [seqsOf, hrf] using hq); simp; omega
+        · subst hq; have := hfok.2.1; simp; omega
+      · intro g hg; exact hbef g hg
+    · intro f' hf'
+      simp only [append, hc] at hf'
+      simp at hf'; subst hf'
+      exact ⟨_, hw', by simpa using hd'⟩
+
+theorem inv_flush {dec : Dec} {s : State} (h : Inv dec s) : Inv dec (flush s) := by
+  unfold flush; cases hc : s.cur with
+  | none => simpa [hc] using h
+  | some f => exact ⟨by simpa [dir, hc] using h.ok, fun f' hf' => h.whole f' (by rw [hc]; simpa using hf')⟩
+
+theorem dir_close (s : State) : dir (close s) = dir s := by simp [dir, close]
+
+/-- reopening needs only the directory part (the open file may end in a torn record) -/
+theorem inv_reopen {dec : Dec} {s : State} (h : DirOK dec (dir s) s.seq) :
+    Inv dec (reopen Mode.fixed dec s) ∧ (reopen Mode.fixed dec s).seq ≤ s.seq := by
+  have hd : dir (reopen Mode.fixed dec s) = dir s := by simp [reopen, dir, close]
+  have hc : (close s).closed = dir s := by simp [dir, close]
+  have := dirOK_findLatest h
+  refine ⟨⟨?_, by simp [reopen, close]⟩, ?_⟩
+  · rw [hd]; simpa [reopen, hc] using this.1
+  · simpa [reopen, hc] using this.2
+
+theorem inv_crash {dec : Dec} {s : State} (k : Nat) (h : Inv dec s) :
+    Inv dec (crash Mode.fixed dec s k) ∧ (crash Mode.fixed dec s k).seq ≤ s.seq := by
+  unfold crash
+  cases hc : s.cur with
+  | none => exact inv_reopen h.ok
+  | some f =>
+    simp only
+    have hdir : dir s = s.closed ++ [f] := by simp [dir, hc]
+    obtain ⟨rs, hw, hd⟩ := h.whole f hc
+    have hok := h.ok; rw [hdir] at hok
+    obtain ⟨hpre, hbef, hfok⟩ := dirOK_init hok
+    have hrf : recsOf dec f = rs := recsOf_eq hw torn_nil (by simpa using hd)
+    generalize max s.flushed (min k f.data.length) = k'
+    have hw' : ∀ r ∈ rs.take (fitCount rs k'), WFRec dec r := fun r hr => hw r (List.mem_of_mem_take hr)
+    have hd' : ({ f with data := f.data.take k' } : File).data
+        = frames (rs.take (fitCount rs k')) ++ (cutRecs rs k').2 := by
+      simp only [hd, take_frames, cutRecs_fst]
+    have ht := cutRecs_torn rs k' (fun r hr => (hw r hr).2.1)
+    have hr' := recsOf_eq hw' ht hd'
+    have hsub : ∀ q ∈ seqsOf dec { f with data := f.data.take k' }, q ∈ seqsOf dec f := by
+      intro q hq
+      simp only [seqsOf, hr', hrf, List.mem_map] at hq ⊢
+      obtain ⟨r, hr, rfl⟩ := hq
+      exact ⟨r, List.mem_of_mem_take hr, rfl⟩
+    apply inv_reopen
+    simp only [dir, Option.toList]
+    refine dirOK_snoc hpre (Nat.le_refl _) ⟨⟨_, _, hw', ht, hd'⟩, hfok.2.1, ?_, ?_⟩ hbef
+    · have := hfok.2.2.1
+      simp only [seqsOf, hr', hrf] at this ⊢
+      rw [List.map_take]
+      exact List.Pairwise.sublist (List.take_sublist _ _) this
+    · intro q hq; exact hfok.2.2.2 q (hsub q hq)
+
+theorem inv_close {dec : Dec} {s : State} (h : Inv dec s) : Inv dec (close s) :=
+  ⟨by rw [dir_close]; simpa [close] using h.ok, by simp [close]⟩
+
+/-- entries handed to `append`: frame length fits `u32`, bincode reads them back exactly -/
+def WFEntry (dec : Dec) (e : Bytes) : Prop :=
+  e.length + 12 < 256 ^ 4 ∧ ∀ rest, dec (e ++ rest) = some e.length
+
+theorem flush_seq (s : State) : (flush s).seq = s.seq := by unfold flush; split <;> rfl
+
+theorem append_seq (s : State) (e : Bytes) : (append s e).seq = s.seq + 1 := by simp [append]
+
+theorem inv_step {dec : Dec} {s : State} {n : Nat} (op : Op) (h : Inv dec s) (hn : s.seq ≤ n)
+    (hN : n + 1 < 256 ^ 8) (he : ∀ e ∈ opEntries [op], WFEntry dec e) :
+    Inv dec (step Mode.fixed dec s op) ∧ (step Mode.fixed dec s op).seq ≤ n + 1 := by
+  cases op with
+  | append e =>
+    have hwe := he e (by simp [opEntries])
+    exact ⟨inv_append h ⟨by show s.seq + 1 < 256 ^ 8; omega, hwe.1, hwe.2⟩, by simp [step, append_seq]; omega⟩
+  | flush => exact ⟨inv_flush h, by simp only [step, flush_seq]; omega⟩
+  | checkpoint e =>
+    have hwe := he e (by simp [opEntries])
+    refine ⟨inv_close (inv_flush (inv_append h ⟨by show s.seq + 1 < 256 ^ 8; omega, hwe.1, hwe.2⟩)), ?_⟩
+    have : (close (flush (append s e))).seq = s.seq + 1 := by
+      show (flush (append s e)).seq = s.seq + 1
+      rw [flush_seq, append_seq]
+    simp only [step, this]; omega
+  | reopen => have := inv_reopen (dec := dec) h.ok; exact ⟨this.1, by simp only [step]; omega⟩
+  | crash k => have := inv_crash (dec := dec) k h; exact ⟨this.1, by simp only [step]; omega⟩
+  | setSync b => exact ⟨⟨by simpa [step, dir] using h.ok, fun f hf => h.whole f (by simpa [step] using hf)⟩,
+      by simp [step]; omega⟩
+
+theorem opEntries_cons (op : Op) (ops : List Op) :
+    opEntries (op :: ops) = opEntries [op] ++ opEntries ops := by
+  cases op <;> simp [opEntries]
+
+theorem inv_foldl {dec : Dec} : ∀ (ops : List Op) (s : State) (n : Nat), Inv dec s → s.seq ≤ n →
+    n + ops.length < 256 ^ 8 → (∀ e ∈ opEntries ops, WFEntry dec e) →
+    Inv dec (ops.foldl (step Mode.fixed dec) s) ∧ (ops.foldl (step Mode.fixed dec) s).seq ≤ n + ops.length
+  | [], s, n, h, hn, _, _ => ⟨h, by simpa using hn⟩
+  | op :: ops, s, n, h, hn, hN, he => by
+    rw [opEntries_cons] at he
+    have h1 := inv_step op h hn (by simp at hN; omega) (fun e he' => he e (List.mem_append_left _ he'))
+    have := inv_foldl ops _ (n + 1) h1.1 h1.2 (by simp at hN; omega)
+      (fun e he' => he e (List.mem_append_right _ he'))
+    simp only [List.foldl_cons, List.length_cons]
+    exact ⟨this.1, by have := this.2; omega⟩
+
+theorem inv_run {dec : Dec} (ops : List Op) (hN : ops.length < 256 ^ 8)
+    (he : ∀ e ∈ opEntries ops, WFEntry dec e) : Inv dec (run Mode.fixed dec ops) :=
+  (inv_foldl ops {} 0 (inv_init dec) (Nat.le_refl _) (by simpa using hN) he).1
+
+/-! ### what replay returns on a directory satisfying the invariant -/
+
+theorem replayDir_good {m : Mode} (hm : m.tornIsEnd = true) {dec : Dec} : ∀ (fs : List File),
+    (∀ f ∈ fs, Good dec f) →
+    replayDir m dec (fs.map (·.data)) = ((fs.map (recsOf dec)).flatten, .ok)
+  | [], _ => by simp [replayDir]
+  | f :: fs, h => by
+    simp only [List.map_cons, replayDir, replay_good hm (h f (by simp)), if_true,
+      replayDir_good hm fs (fun g hg => h g (by simp [hg])), List.flatten_cons]
+
+theorem seqs_sorted {dec : Dec} : ∀ (fs : List File) (B : Nat), DirOK dec fs B →
+    (((fs.map (recsOf dec)).flatten).map (·.seq)).Pairwise (· < ·)
+  | [], _, _ => by simp
+  | f :: fs, B, h => by
+    have hp := h.2; rw [List.pairwise_cons] at hp
+    have ih := seqs_sorted fs B ⟨fun g hg => h.1 g (by simp [hg]), hp.2⟩
+    simp only [List.map_cons, List.flatten_cons, List.map_append]
+    rw [List.pairwise_append]
+    refine ⟨(h.1 f (by simp)).2.2.1, ih, ?_⟩
+    intro a ha b hb
+    simp only [List.mem_map, List.mem_flatten] at hb
+    obtain ⟨r, ⟨l, ⟨g, hg, rfl⟩, hr⟩, rfl⟩ := hb
+    have h1 := (hp.1 g hg).2 a ha
+    have h2 := ((h.1 g (by simp [hg])).2.2.2 r.seq (by simp only [seqsOf, List.mem_map]; exact ⟨r, hr, rfl⟩)).1
+    omega
+
+theorem seqs_le {dec : Dec} {fs : List File} {B : Nat} (h : DirOK dec fs B) :
+    ∀ r ∈ (fs.map (recsOf dec)).flatten, r.seq ≤ B := by
+  intro r hr
+  simp only [List.mem_flatten, List.mem_map] at hr
+  obtain ⟨l, ⟨g, hg, rfl⟩, hr⟩ := hr
+  exact ((h.1 g hg).2.2.2 r.seq (by simp only [seqsOf, List.mem_map]; exact ⟨r, hr, rfl⟩)).2
+
+/-! ### a damaged record is reported -/
+
+theorem fromLE_inj : ∀ (l1 l2 : Bytes), l1.length = l2.length → fromLE l1 = fromLE l2 → l1 = l2
+  | [], [], _, _ => rfl
+  | [], _ :: _, h, _ => by simp at h
+  | _ :: _, [], h, _ => by simp at h
+  | a :: l1, b :: l2, hl, h => by
+    simp only [fromLE] at h
+    have ha := a.toNat_lt; have hb := b.toNat_lt
+    have h1 : a.toNat = b.toNat := by omega
+    have h2 : fromLE l1 = fromLE l2 := by omega
+    rw [UInt8.toNat_inj.mp h1, fromLE_inj l1 l2 (by simpa using hl) h2]
+
+theorem xorAll_flip (a c : Bytes) (b m : UInt8) (hm : m ≠ 0) :
+    xorAll (a ++ (b ^^^ m) :: c) ≠ xorAll (a ++ b :: c) := by
+  intro h
+  simp only [xorAll_append, xorAll] at h
+  rw [UInt8.xor_right_inj, UInt8.xor_left_inj] at h
+  have : b ^^^ (b ^^^ m) = b ^^^ b := by rw [h]
+  rw [← UInt8.xor_assoc, UInt8.xor_self, UInt8.zero_xor] at this
+  exact hm this
+
+theorem cksum_flip (a c : Bytes) (b m : UInt8) (hm : m ≠ 0) :
+    cksum (a ++ b :: c) ≠ cksum (a ++ (b ^^^ m) :: c) := by
+  intro h
+  simp only [cksum] at h
+  exact xorAll_flip a c b m hm (UInt8.toNat_inj.mp h).symm
+
+/-- A frame-shaped chunk (length prefix consistent with the entry) whose stored checksum
+bytes do not decode to the XOR of its entry bytes stops the replay with an error, whatever
+the bincode decoder makes of the entry bytes — provided records must fill their frame. -/
+theorem replayFile_badck {m : Mode} (hm : m.exactSize = true) (dec : Dec) (q : Nat) (e ckb post : Bytes)
+    (fuel : Nat) (hL : e.length + 12 < 256 ^ 4) (hc4 : ckb.length = 4) (hne : fromLE ckb ≠ cksum e) :
+    ∃ err, err ≠ End.ok ∧
+      replayFile m dec (fuel + 1) (le 4 (e.length + 12) ++ (le 8 q ++ (e ++ ckb)) ++ post) = ([], err) := by
+  have hbl : (le 8 q ++ (e ++ ckb)).length = e.length + 12 := by simp [le_length, hc4]; omega
+  have ht : (le 4 (e.length + 12) ++ (le 8 q ++ (e ++ ckb)) ++ post).take 4 = le 4 (e.length + 12) := by
+    simp only [List.append_assoc]; exact List.take_left' (le_length 4 _)
+  have hd : (le 4 (e.length + 12) ++ (le 8 q ++ (e ++ ckb)) ++ post).drop 4
+      = (le 8 q ++ (e ++ ckb)) ++ post := by
+    simp only [List.append_assoc]; exact List.drop_left' (le_length 4 _)
+  rw [replayFile]
+  simp only [ht, hd, fromLE_le 4 _ hL]
+  rw [if_neg (by simp [le_length]), if_neg (by rw [List.length_append, hbl]; omega), List.take_left' hbl]
+  unfold parseBody
+  rw [if_neg (by omega), List.drop_left' (le_length 8 q)]
+  cases hdec : dec (e ++ ckb) with
+  | none => exact ⟨.ser, by simp, rfl⟩
+  | some n =>
+    dsimp only
+    by_cases hshort : (le 8 q ++ (e ++ ckb)).length < 8 + n + 4
+    · rw [if_pos hshort]; exact ⟨.ser, by simp, rfl⟩
+    · rw [if_neg hshort]
+      dsimp only
+      by_cases hsz : 8 + n + 4 = e.length + 12
+      · have hn : n = e.length := by omega
+        subst hn
+        have h1 : (e ++ ckb).take e.length = e := List.take_left' rfl
+        have h2 : ((le 8 q ++ (e ++ ckb)).drop (8 + e.length)).take 4 = ckb := by
+          rw [← List.drop_drop, List.drop_left' (le_length 8 q), List.drop_left' rfl,
+            List.take_of_length_le (by omega)]
+        rw [h1, h2, if_pos (by simp [hne.symm])]
+        exact ⟨_, by simp, rfl⟩
+      · rw [if_pos (by simp [hm]; exact Or.inl (by omega))]
+        exact ⟨_, by simp, rfl⟩
+
+/-- the same, after any number of intact records -/
+theorem replayFile_frames_then {m : Mode} {dec : Dec} (rs : List Rec) (hw : ∀ r ∈ rs, WFRec dec r)
+    (fuel : Nat) (rest : Bytes) :
+    replayFile m dec (rs.length + fuel) (frames rs ++ rest)
+      = (rs ++ (replayFile m dec fuel rest).1, (replayFile m dec fuel rest).2) := by
+  induction rs with
+  | nil => simp [frames]
+  | cons r rs ih =>
+    have : (r :: rs).length + fuel = (rs.length + fuel) + 1 := by simp; omega
+    rw [this]
+    simp only [frames, List.append_assoc]
+    rw [replayFile_frame (hw r (by simp)), ih (fun x hx => hw x (by simp [hx]))]
+    simp
+
 end SgModel.Wal
